@@ -1,5 +1,6 @@
 import Mkdb.Proofs.Roundtrip
 import Mkdb.Proofs.RoundtripStmt8
+import Mkdb.Proofs.ScanBuf
 /-!
 # C10 — parsing is faithful (token level)
 
@@ -371,3 +372,109 @@ example :
   refine ⟨?_, ?_⟩ <;> rfl
 
 end Mkdb.Sql
+
+/-!
+# C10 — buffered reading of the SQL scanner is invisible
+
+`Scanner.next` (sql/go_scanner.go) reads runes out of a 1024-byte buffer that it refills
+from an `io.Reader`; a reader may return any number of bytes per `Read`.  The statements
+below hold for every input and every behaviour of the reader.
+-/
+namespace Mkdb.ScanBuf
+
+/-- **C10.buffered_reading_is_invisible**: take any input bytes and any reader (any number of
+bytes per `Read`, at least one while input remains; EOF reported together with the last bytes
+or by a separate empty `Read`).  Calling `next` from `Init` until it returns EOF delivers
+exactly the runes that decoding the whole input in one piece gives (`DecodeRune` on what is
+left, again and again), and every rune takes up the same number of bytes, so offsets agree;
+the widths add up to the length of the input, so nothing is lost or read twice at a refill. -/
+theorem C10_buffered_reading_is_invisible (input : Bytes) (sched : Nat → Choice) :
+    (nextAll (init input sched)).map (·.1) = decodeRunes input ∧
+    (nextAll (init input sched)).map (·.2) = (decodeAll input).map (·.2) ∧
+    ((nextAll (init input sched)).map (·.2)).sum = input.length :=
+  ⟨nextAll_buffered_eq_unbuffered input sched, nextAll_widths_eq input sched, by
+    rw [nextAll_widths_eq]; exact decodeAll_widths_sum _ input rfl⟩
+
+/-- The same from any scanner state (any buffer content, any token in progress): what is still
+to come is the decoding of the bytes not yet consumed. -/
+theorem C10_buffered_reading_is_invisible_any_state (st : St) :
+    nextAll st = decodeAll (pending st) :=
+  nextAll_eq_decodeAll st
+
+/-- **C10.token_text_survives_refills**: `Scan` starts a token when `i+1` characters have been
+read (the token begins with character `i+1`, the look-ahead) and ends it when `k+1` more
+have been read (the last of them is the next look-ahead).  `TokenText()` is then exactly the
+`k+1` characters of the input that begin at the byte offset of character `i+1` - however
+often the buffer was refilled in between and however the reader cut the input. -/
+theorem C10_token_text_survives_refills (input : Bytes) (sched : Nat → Choice) (i k : Nat) :
+    tokenText (nexts (k + 1) (startToken (nexts (i + 1) (init input sched)))) =
+      (input.drop (consumed i input)).take (consumed (k + 1) (input.drop (consumed i input))) :=
+  tokenText_from_init input sched i k
+
+/-- `consumed k p`, the offset used above, is the sum of the first `k` rune widths of `p`. -/
+theorem C10_consumed_is_sum_of_widths (k : Nat) (p : Bytes) :
+    consumed k p = (((decodeAll p).take k).map (·.2)).sum :=
+  consumed_eq_sum k p
+
+/-- The fact the refill loop of `next` rests on: when the bytes in the buffer begin with a full
+rune (or there are `UTFMax` of them), `DecodeRune` does not look at what follows. -/
+theorem C10_decodeRune_prefix_stable (bs more : Bytes)
+    (h : fullRune bs = true ∨ utfMax ≤ bs.length) :
+    decodeRune (bs ++ more) = decodeRune bs :=
+  decodeRune_prefix_stable bs more h
+
+/-! Computed examples.  The input: 1023 times `a`, then `é` (C3 A9) on the byte positions
+1023/1024 - across the end of the first buffer -, `b`, `€` (E2 82 AC), an encoded surrogate
+(ED A0 80: three error runes of width 1) and a cut-off 4-byte sequence (F0 9F: two more). -/
+
+def c10BufInput : Bytes :=
+  List.replicate 1023 97 ++ [0xC3, 0xA9, 98, 0xE2, 0x82, 0xAC, 0xED, 0xA0, 0x80, 0xF0, 0x9F]
+/-- a reader that fills all the free space (`strings.Reader`, `bytes.Reader`) -/
+def c10FillAll : Nat → Choice := fun _ => ⟨bufLen, false⟩
+/-- a reader that returns 1, 2, 3, 1, 2, 3, ... bytes and reports EOF with the last ones -/
+def c10Small : Nat → Choice := fun i => ⟨i % 3 + 1, true⟩
+
+set_option maxRecDepth 100000 in
+/-- both readers: the tail of the run is `a é b € � � � � �` with widths 1 2 1 3 1 1 1 1 1,
+and the run has 1031 runes for 1034 bytes -/
+example :
+    (nextAll (init c10BufInput c10FillAll)).drop 1022 =
+      [(97, 1), (233, 2), (98, 1), (8364, 3), (65533, 1), (65533, 1), (65533, 1), (65533, 1), (65533, 1)] ∧
+    (nextAll (init c10BufInput c10Small)).drop 1022 =
+      [(97, 1), (233, 2), (98, 1), (8364, 3), (65533, 1), (65533, 1), (65533, 1), (65533, 1), (65533, 1)] ∧
+    (nextAll (init c10BufInput c10Small)).length = 1031 ∧ c10BufInput.length = 1034 := by
+  simp only [nextAll, nextAllFuel_eq_nextAllF]
+  decide +kernel
+
+set_option maxRecDepth 100000 in
+/-- ... which is what direct decoding gives -/
+example : (decodeAll c10BufInput).drop 1022 =
+    [(97, 1), (233, 2), (98, 1), (8364, 3), (65533, 1), (65533, 1), (65533, 1), (65533, 1), (65533, 1)] := by
+  rw [decodeAll_eq_decodeAllF 1034 c10BufInput (by decide)]
+  decide +kernel
+
+set_option maxRecDepth 100000 in
+/-- the refill really happens inside the character: with the filling reader, after 1023 calls
+one `Read` has been made and the buffer holds the lone byte C3; the next call reads again -/
+example :
+    (nexts 1023 (init c10BufInput c10FillAll)).win = [0xC3] ∧
+    (nexts 1023 (init c10BufInput c10FillAll)).reads = 1 ∧
+    (nexts 1024 (init c10BufInput c10FillAll)).reads = 2 ∧
+    (nexts 1024 (init c10BufInput c10FillAll)).last = [0xC3, 0xA9] ∧
+    (nexts 1031 (init c10BufInput c10Small)).reads = 518 := by
+  simp only [nexts_eq_nextsF]
+  decide +kernel
+
+set_option maxRecDepth 100000 in
+/-- token text across the refill: a token that begins with the `a` at offset 1021 and ends
+before `b` reads `a a é`; its head `a a` went to `tokBuf` when the buffer was refilled -/
+example :
+    tokenText (nexts 3 (startToken (nexts 1022 (init c10BufInput c10FillAll)))) = [97, 97, 0xC3, 0xA9] ∧
+    (nexts 3 (startToken (nexts 1022 (init c10BufInput c10FillAll)))).tokBuf = [97, 97] ∧
+    tokenText (nexts 3 (startToken (nexts 1022 (init c10BufInput c10Small)))) = [97, 97, 0xC3, 0xA9] ∧
+    tokenText (nexts 6 (startToken (nexts 1024 (init c10BufInput c10Small)))) =
+      [0xC3, 0xA9, 98, 0xE2, 0x82, 0xAC, 0xED, 0xA0, 0x80] := by
+  simp only [nexts_eq_nextsF]
+  decide +kernel
+
+end Mkdb.ScanBuf
